@@ -8,6 +8,19 @@
                                       (the optional key only says after which table generation the real code is asked)
     wb.fx <bits>                      __FX(v) with the model-generated M2                                       spec: -
     wb.round <xkey> <r> <bits>        one round (12 T-box substitutions, then __FX) of the network of <key>     spec: -
+    wb.seq <xkey1> <xkey2> <xblocks>  two generations in ONE process (`Wb.genSeq`): network 1 for key1, an in-place
+    wb.seqg …                         modification of every table object of network 1 (`seqg`: and of every mutable
+                                      object the module keeps), then network 2 for key2.  Sections, `|`-separated:
+                                        pre=   digests of the key-independent tables generated with network 1
+                                        enc1=  network 1 on the blocks, before it is modified
+                                        encB=  a second, untouched network for key1 ("bystander"), evaluated afterwards
+                                        post=  the key-independent tables generated after the modification, in full
+                                        kt=    digests of the 16 x 12 T-boxes of network 2
+                                        alias= NONE (the real code: ALIASED:<names> when two networks / two calls
+                                               share a mutable table object)
+                                        enc2=  network 2 on the blocks
+                                      The model is pure: the answer is a function of (key1, key2, blocks) only and
+                                      network 2 is `mkWhiteDES key2` (Proofs.C18.gen_seq_key_only).              spec: -
 -/
 import Driver.Wire
 import Driver.BitsD
@@ -69,6 +82,37 @@ def fxLine (v : Bits) : Except Err Bits := do
   let m2 ← Wb.tableM2
   (Wb.WhiteDES.mk [] [] m2.1 []).FX v
 
+/-- digests of the seven key-independent values in the order of `staticLine`
+    (a list of lists is flattened with every row preceded by its length) -/
+def staticDigests : Except Err String := do
+  let m1 ← Wb.tableM1
+  let (mat, m) ← Wb.tableM2
+  let m3 ← Wb.tableM3
+  let rb ← Wb.getrbitsTin
+  let (sr, l, r) ← Wb.srlrFormat
+  let (er, l', r') ← Wb.erlrFormat
+  let flat (t : List (List Nat)) : List Nat := (t.map fun e => e.length :: e).flatten
+  pure (",".intercalate [digest m1, digest mat, digest (flat m), digest m3, digest rb,
+                         digest (flat [sr, l, r]), digest (flat [er, l', r'])])
+
+def encsOf (w : Except Err Wb.WhiteDES) (ms : List Nat) : String :=
+  match w with
+  | .error _ => "ERR"
+  | .ok w => ",".intercalate ((chunks8 ms.length ms).map fun m => fmtE fmtBytes (w.enc m))
+
+def ktDigests (w : Except Err Wb.WhiteDES) : String :=
+  match w with
+  | .error _ => "ERR"
+  | .ok w => ";".intercalate (w.KT.map digestTables)
+
+/-- the in-place modification is invisible to a pure function: `f = id` -/
+def seqLine (k1 k2 ms : List Nat) : String :=
+  let p := Wb.genSeq k1 id k2
+  let w1 := p.map Prod.fst
+  let w2 := p.map Prod.snd
+  "|".intercalate ["pre=" ++ fmtE id staticDigests, "enc1=" ++ encsOf w1 ms, "encB=" ++ encsOf w1 ms,
+                   "post=" ++ fmtE id staticLine, "kt=" ++ ktDigests w2, "alias=NONE", "enc2=" ++ encsOf w2 ms]
+
 def handle : Handler := fun op args =>
   match op, args with
   | "wb.enc", [k, m] => do
@@ -88,6 +132,12 @@ def handle : Handler := fun op args =>
   | "wb.round", [k, r, v] => do
       let k ← parseBytes? k; let r ← parseNat? r; let v ← parseBits? v
       pure (fmtE fmtBits (roundLine k r v), "-")
+  | "wb.seq", [k1, k2, ms] => do
+      let k1 ← parseBytes? k1; let k2 ← parseBytes? k2; let ms ← parseBytes? ms
+      pure (seqLine k1 k2 ms, "-")
+  | "wb.seqg", [k1, k2, ms] => do
+      let k1 ← parseBytes? k1; let k2 ← parseBytes? k2; let ms ← parseBytes? ms
+      pure (seqLine k1 k2 ms, "-")
   | _, _ => none
 
 end Driver.WbD
